@@ -8,6 +8,7 @@ import (
 	"math/big"
 	"os"
 	"strings"
+	"time"
 
 	"cosmossdk.io/math"
 	sdk "github.com/cosmos/cosmos-sdk/types"
@@ -483,9 +484,10 @@ func fracClass(f math.LegacyDec) string {
 
 type MonC17 struct {
 	BaseMon
+	cfgAt map[string]time.Time // block time at which governance last configured decay on an asset that had none in effect
 }
 
-func NewMonC17(r *Runner) *MonC17 { return &MonC17{BaseMon{r}} }
+func NewMonC17(r *Runner) *MonC17 { return &MonC17{BaseMon{r}, map[string]time.Time{}} }
 func (m *MonC17) Name() string    { return "C17" }
 
 func (m *MonC17) AfterTx(o *TxOutcome) {
@@ -495,6 +497,25 @@ func (m *MonC17) AfterTx(o *TxOutcome) {
 	if strings.HasPrefix(o.Step.K, "gov_") || strings.HasPrefix(o.Step.K, "legacy_") {
 		if o.Res.OK {
 			m.R.Rep.Class("C17.accepted." + o.Step.K + "." + govClass(o.Step.Gov))
+			// intervals count from the moment decay is configured (C14): remember that moment, so that the
+			// recorded overflow finding is only matched when the intervals that really elapsed explain it
+			if o.Step.K == "gov_update" || o.Step.K == "legacy_update" {
+				a, ok1 := o.Pre.Assets[o.Step.Gov.Denom]
+				b, ok2 := o.Post.Assets[o.Step.Gov.Denom]
+				if ok1 && ok2 {
+					was := a.RewardChangeInterval > 0 && !a.RewardChangeRate.Equal(math.LegacyOneDec())
+					changed := !a.RewardChangeRate.Equal(b.RewardChangeRate) || a.RewardChangeInterval != b.RewardChangeInterval
+					if !was && changed {
+						m.cfgAt[o.Step.Gov.Denom] = o.Pre.Time
+						if b.RewardChangeInterval > 0 && b.RewardChangeRate.GT(math.LegacyOneDec()) && o.Pre.Time.Sub(a.LastRewardChangeTime)/b.RewardChangeInterval > 10000 {
+							m.R.Rep.Class("C17.growth-configured-long-after-last-change")
+						}
+					}
+				}
+			}
+			if o.Step.K == "gov_delete" || o.Step.K == "legacy_delete" {
+				delete(m.cfgAt, o.Step.Gov.Denom)
+			}
 		}
 	}
 }
@@ -585,7 +606,11 @@ func (m *MonC17) decayOverflowCause(s *Snap) bool {
 		if a.LastRewardChangeTime.Add(a.RewardChangeInterval).After(s.Time) {
 			continue
 		}
-		n := int64(s.Time.Sub(a.LastRewardChangeTime) / a.RewardChangeInterval)
+		clock := a.LastRewardChangeTime
+		if t, ok := m.cfgAt[d]; ok && t.After(clock) {
+			clock = t // a clock older than the configuration of the decay is not the recorded mechanism
+		}
+		n := int64(s.Time.Sub(clock) / a.RewardChangeInterval)
 		// log2(rate^n) = n*log2(rate) >= ~190 bits overflows LegacyDec (max 2^256 / 10^18 scaled)
 		f, _ := new(big.Float).SetRat(ratDec(a.RewardChangeRate)).Float64()
 		bits := float64(n) * log2(f)
